@@ -9,7 +9,7 @@ from fractions import Fraction
 
 import numpy as np
 
-from common import (Outcome, Machinery, run_tlc, need_ok, run_cases,
+from common import (unique, Outcome, Machinery, run_tlc, need_ok, run_cases,
                     validate_traces, settle, seed, main_wrap)
 
 PROP = 'C17'
@@ -95,7 +95,8 @@ def run(tier):
                 'weight laws + conservation laws + emission')
     if r.violated:
         out.model_violation(r, 'Interp_MC')
-    cases = [p for p in r.prints if isinstance(p, dict) and 'kind' in p]
+    cases = unique([p for p in r.prints
+                    if isinstance(p, dict) and 'kind' in p])
     if not cases:
         raise Machinery('Interp_MC emitted nothing')
     out.cov['cases_emitted'] = len(cases)
